@@ -396,7 +396,8 @@ func TestVerifC02JWT(t *testing.T) {
 			vals := map[string]string{"": "", "main": main, "valid": decoyValid, "garbage": decoyGarbage}
 			slotGen := rapid.SampledFrom([]string{"", "", "", "main", "main", "valid", "garbage"})
 			var slots [4]string // token field, password, ?token=, ?jwt=
-			primary := rapid.IntRange(0, 3).Draw(t, l+"primarySlot")
+			// rapid favours small draws: the query slots, whose eligibility depends on protocol and setting, come first
+			primary := []int{2, 3, 1, 0}[rapid.IntRange(0, 3).Draw(t, l+"primarySlot")]
 			for k := range slots {
 				slots[k] = slotGen.Draw(t, fmt.Sprintf("%sslot%d", l, k))
 			}
